@@ -134,29 +134,92 @@ pub enum Verdict {
 /// Discharge `hyps ⟹ goal` with rewriting by the equalities among `hyps` first (sound: the
 /// hypotheses stay asserted), then the solver.
 pub fn discharge(s: &mut Solver, rw: &mut Rewriter, hyps: &[Fm], goal: &Fm, sh: &mut Shard, tag: &str) -> Verdict {
+    let t_trace = std::time::Instant::now();
+    let v = discharge_inner(s, rw, hyps, goal, sh, tag);
+    if std::env::var("VERIF_TRACE").is_ok() {
+        eprintln!("[trace] {tag} {} in {:.2}s", match &v { Verdict::Holds => "holds", Verdict::Cex(_) => "cex", Verdict::Undecided(_) => "undecided" }, t_trace.elapsed().as_secs_f64());
+    }
+    v
+}
+
+fn discharge_inner(s: &mut Solver, rw: &mut Rewriter, hyps: &[Fm], goal: &Fm, sh: &mut Shard, tag: &str) -> Verdict {
     sh.bump(&format!("{tag}.obligations"));
     s.label = tag.to_string();
     let g = rw.canon_fm(goal);
     if matches!(g, Fm::True) {
+        // Both sides became the same hash-consed term after rewriting with the hypotheses'
+        // equalities (congruence closure): discharged without a solver call. Sanity: on the
+        // shadow point (where the hypotheses hold on honest paths) the two sides agree.
         sh.bump(&format!("{tag}.syntactic_after_rewrite"));
+        sh.bump(&format!("{tag}.unsat"));
+        sh.bump(&format!("{tag}.unsat_by_congruence_rewriting"));
+        return Verdict::Holds;
     }
-    // stage 1: the rewritten goal alone (plus non-equational hypotheses). `unsat` here means the
-    // goal is a consequence of the equalities used for rewriting, hence of `hyps`.
-    let side: Vec<Fm> = hyps.iter().filter(|h| !matches!(h, Fm::Eq(..))).cloned().collect();
-    let mut v1 = side.clone();
-    v1.push(Fm::not(g.clone()));
+    // the shadow point is a free counterexample candidate: check it before any solver work
+    if let Some(m) = shadow_counterexample(hyps, goal) {
+        sh.bump(&format!("{tag}.sat"));
+        sh.bump(&format!("{tag}.sat_at_shadow_point"));
+        return Verdict::Cex(m);
+    }
+    // very large terms: z3 expands define-fun macros eagerly and does not come back; refuse
+    {
+        let mut all = Vec::new();
+        g.roots(&mut all);
+        hyps.iter().for_each(|f| f.roots(&mut all));
+        if expansion_size(&all, 4_000_000) >= 4_000_000 {
+            sh.bump(&format!("{tag}.undecided"));
+            sh.bump(&format!("{tag}.too_large_for_solver"));
+            return Verdict::Undecided("terms too large for the SMT back end".into());
+        }
+    }
+    // stage 1: the rewritten goal alone, in a fresh solver context that contains only the goal's
+    // cone (z3's sum-of-monomials normalisation must not see the whole program's definitions).
+    // `unsat` means the goal is a polynomial identity mod p after rewriting with the hypotheses'
+    // equalities, hence a consequence of `hyps`.
+    let mut groots = Vec::new();
+    g.roots(&mut groots);
+    if expansion_size(&groots, 200_000) < 200_000 {
+        let mut s1 = Solver::new(s.kind, s.p, 3000);
+        let r1 = s1.query_som(&[Fm::not(g.clone())]);
+        s.stats.queries += 1;
+        s.stats.solver_time_s += s1.stats.solver_time_s;
+        if let SatResult::Unsat = r1 {
+            s.stats.unsat += 1;
+            sh.bump(&format!("{tag}.unsat"));
+            sh.bump(&format!("{tag}.unsat_stage1_identity"));
+            return Verdict::Holds;
+        }
+    }
+    // stage N: sparse polynomial normal form of the (cross-multiplied) rewritten goal; the zero
+    // polynomial is an identity mod p (in-engine ring normalisation, no solver call)
+    if let Fm::Eq(gl, gr) = &g {
+        let mut ctx = PolyCtx::new(s.p);
+        if let Some(d) = ctx.diff(*gl, *gr) {
+            if d.is_zero() {
+                sh.bump(&format!("{tag}.unsat"));
+                sh.bump(&format!("{tag}.unsat_by_polynomial_normal_form"));
+                return Verdict::Holds;
+            }
+        }
+    }
     let mut roots = Vec::new();
-    v1.iter().for_each(|f| f.roots(&mut roots));
+    g.roots(&mut roots);
     hyps.iter().for_each(|f| f.roots(&mut roots));
     goal.roots(&mut roots);
     s.define(&roots);
-    s.set_timeout(2000.min(s.timeout_ms));
-    let r1 = s.query_som(&v1);
-    s.set_timeout(s.timeout_ms);
-    if let SatResult::Unsat = r1 {
-        sh.bump(&format!("{tag}.unsat"));
-        sh.bump(&format!("{tag}.unsat_stage1_identity"));
-        return Verdict::Holds;
+    // stage 1b: plus the non-equational hypotheses (non-zero facts, disequalities) when few
+    let side: Vec<Fm> = hyps.iter().filter(|h| !matches!(h, Fm::Eq(..))).cloned().collect();
+    if !side.is_empty() && side.len() <= 12 {
+        let mut v1 = side.clone();
+        v1.push(Fm::not(g.clone()));
+        s.set_timeout(2000.min(s.timeout_ms));
+        let r1b = s.query(&v1);
+        s.set_timeout(s.timeout_ms);
+        if let SatResult::Unsat = r1b {
+            sh.bump(&format!("{tag}.unsat"));
+            sh.bump(&format!("{tag}.unsat_stage1_identity"));
+            return Verdict::Holds;
+        }
     }
     // stage 1.5: search an ideal-membership certificate g·m = Σ c_i·h_i with sparse polynomial
     // division (untrusted), and let the solver validate it as a polynomial identity.
@@ -257,6 +320,76 @@ pub fn shadow_counterexample(hyps: &[Fm], goal: &Fm) -> Option<std::collections:
         return None;
     }
     Some(with_arena(|a| a.var_nodes.iter().enumerate().map(|(v, n)| (v as u32, a.shadows[*n as usize])).collect()))
+}
+
+/// Variant of [`discharge`] for obligations over very large terms (whole-verifier runs): the
+/// congruence stage, then the solver with the full hypotheses (original and rewritten); the
+/// identity / certificate stages are skipped because their normal forms explode.
+pub fn discharge_big(s: &mut Solver, rw: &mut Rewriter, hyps: &[Fm], goal: &Fm, sh: &mut Shard, tag: &str) -> Verdict {
+    sh.bump(&format!("{tag}.obligations"));
+    s.label = tag.to_string();
+    let g = rw.canon_fm(goal);
+    if matches!(g, Fm::True) {
+        sh.bump(&format!("{tag}.syntactic_after_rewrite"));
+        sh.bump(&format!("{tag}.unsat"));
+        sh.bump(&format!("{tag}.unsat_by_congruence_rewriting"));
+        return Verdict::Holds;
+    }
+    if let Some(m) = shadow_counterexample(hyps, goal) {
+        sh.bump(&format!("{tag}.sat"));
+        sh.bump(&format!("{tag}.sat_at_shadow_point"));
+        return Verdict::Cex(m);
+    }
+    if let Fm::Eq(gl, gr) = &g {
+        let mut ctx = PolyCtx::new(s.p);
+        if let Some(d) = ctx.diff(*gl, *gr) {
+            if d.is_zero() {
+                sh.bump(&format!("{tag}.unsat"));
+                sh.bump(&format!("{tag}.unsat_by_polynomial_normal_form"));
+                return Verdict::Holds;
+            }
+        }
+    }
+    if let Fm::Eq(gl, gr) = goal {
+        if let Some(true) = try_certificate(s, hyps, (*gl, *gr)) {
+            sh.bump(&format!("{tag}.unsat"));
+            sh.bump(&format!("{tag}.unsat_certificate"));
+            return Verdict::Holds;
+        }
+    }
+    {
+        let mut all = Vec::new();
+        g.roots(&mut all);
+        hyps.iter().for_each(|f| f.roots(&mut all));
+        if expansion_size(&all, 4_000_000) >= 4_000_000 {
+            sh.bump(&format!("{tag}.undecided"));
+            sh.bump(&format!("{tag}.too_large_for_solver"));
+            return Verdict::Undecided("terms too large for the SMT back end".into());
+        }
+    }
+    let mut v: Vec<Fm> = hyps.to_vec();
+    v.extend(hyps.iter().map(|h| rw.canon_fm(h)).filter(|h| !matches!(h, Fm::True)));
+    v.push(Fm::not(g));
+    // define every node once in the enclosing scope (re-sending thousands of definitions per
+    // query is what makes z3 crawl)
+    let mut roots = Vec::new();
+    v.iter().for_each(|f| f.roots(&mut roots));
+    s.define(&roots);
+    match s.query(&v) {
+        SatResult::Unsat => {
+            sh.bump(&format!("{tag}.unsat"));
+            sh.bump(&format!("{tag}.unsat_solver"));
+            Verdict::Holds
+        }
+        SatResult::Sat(m) => {
+            sh.bump(&format!("{tag}.sat"));
+            Verdict::Cex(m)
+        }
+        SatResult::Unknown(why) => {
+            sh.bump(&format!("{tag}.undecided"));
+            Verdict::Undecided(why)
+        }
+    }
 }
 
 /// Returns Some(true) when a certificate was found and validated by the solver.
